@@ -105,10 +105,23 @@ def rebuild_hex_state(doc):
     return sysm, snap, model
 
 
-def replay_per_state(doc, fn):
+def rebuild_state(doc, factory):
+    """generic: factory(kwargs) -> system; replay the recorded history through system.step"""
+    sysm = factory(dict(doc["system"]["kwargs"]))
+    hist = [unjson(e) for e in doc["history"]]
+    snap, model = sysm.initial()[hist[0][1]]
+    for ev in hist[1:]:
+        st = sysm.step(snap, model, ev)
+        if st.snap is None:
+            raise HarnessError("history does not replay")
+        snap, model = st.snap, st.model
+    return sysm, snap, model
+
+
+def replay_per_state(doc, fn, factory=None):
     outs = []
     for _ in range(2):
-        sysm, snap, model = rebuild_hex_state(doc)
+        sysm, snap, model = rebuild_hex_state(doc) if factory is None else rebuild_state(doc, factory)
         o = fn(sysm, snap, model)
         outs.append(sorted({v["check"] for v in o.viols}))
     if outs[0] != outs[1]:
